@@ -374,6 +374,10 @@ def build_wbdec(cfg):
 def gen_arbiter(rng):
     from worlds.arbiter import WORLD
     cfg = WORLD.gen_config(rng, "C19")
+    # C19 watches elaboration with a 60 s alarm: keep the largest arbiters (258-260 initiators need
+    # ~25 s to convert on an idle core) out of it; 101-104 (3 s) stay
+    if len(cfg["intrs"]) > 110:
+        cfg["intrs"] = cfg["intrs"][:rng.range(101, 104)]
     if rng.chance(0.12):
         # the simplest system: one initiator with the arbiter's own features, word-granular on a
         # finer-grained bus
@@ -435,7 +439,10 @@ def build_sram(cfg):
 
 def gen_gpio(rng):
     from worlds.gpio import WORLD
-    return WORLD.gen_config(rng, "C19")
+    cfg = WORLD.gen_config(rng, "C19")
+    if cfg["pc"] > 140:
+        cfg["pc"] = 140          # (see gen_arbiter: stay far below C19's elaboration alarm)
+    return cfg
 
 
 def build_gpio(cfg):
